@@ -37,7 +37,7 @@ pub fn def() -> PropDef {
 #[derive(Clone, Debug, Serialize, Deserialize)]
 pub struct FaultSpec {
     /// kinds filter: 0 any, 1 create, 2 append, 3 flush, 4 terminate, 5 atomic_write, 6 sync_directory, 7 delete,
-    /// 8 open_read/atomic_read, 9 lock files (create of *.lock)
+    /// 8 open_read/atomic_read, 9 lock files (create of *.lock), 10 a read of an opened file
     pub kind: u8,
     /// position as a fraction (1/65536) of the number of matching operations in the fault-free dry run
     pub pos: u16,
@@ -77,6 +77,9 @@ fn rule_of(f: &FaultSpec, nth: usize) -> FaultRule {
         7 => (vec![K::Delete], "", false),
         8 => (vec![K::OpenRead, K::AtomicRead], "", false),
         9 => (vec![K::Create], ".lock", true),
+        // one read of an opened file (merges, advance_deletes, reader loads); reads are not logged, the position is taken
+        // as given (it may lie beyond the number of reads of the history)
+        10 => (vec![K::Read], "", false),
         _ => (vec![], "", false),
     };
     let thread = match f.thread {
@@ -108,7 +111,7 @@ impl Sub for Faults {
             c
         });
         let fault = (
-            prop_oneof![6 => Just(0u8), 2 => Just(1u8), 3 => Just(2u8), 1 => Just(3u8), 3 => Just(4u8), 3 => Just(5u8), 2 => Just(6u8), 2 => Just(7u8), 2 => Just(8u8), 1 => Just(9u8)],
+            prop_oneof![6 => Just(0u8), 2 => Just(1u8), 3 => Just(2u8), 1 => Just(3u8), 3 => Just(4u8), 3 => Just(5u8), 2 => Just(6u8), 2 => Just(7u8), 2 => Just(8u8), 1 => Just(9u8), 2 => Just(10u8)],
             any::<u16>(),
             any::<bool>(),
             prop_oneof![8 => Just(0u8), 1 => Just(1u8), 1 => Just(2u8), 1 => Just(3u8), 1 => Just(4u8)],
@@ -349,7 +352,7 @@ pub fn child_main(args: &[String]) -> i32 {
         // number of matching operations in the dry run
         let rule0 = rule_of(f, usize::MAX);
         let n = dry.log_kinds.iter().filter(|(k, t, p)| rule_matches(&rule0, *k, t, p)).count();
-        let nth = idx(f.pos, n.max(1));
+        let nth = if f.kind == 10 { (f.pos % 40) as usize } else { idx(f.pos, n.max(1)) };
         let res = run_history(&case, Some((rule_of(f, nth), f.rollback, f.reuse, f.merge_after_failure, f.gc_after_failure)), &cx);
         let v = match res {
             Ok(r) => json!({
